@@ -479,3 +479,87 @@ Proof.
     destruct o; inversion Hs; subst; try (apply Forall_set_nth; assumption);
       apply Forall_app; split; auto.
 Qed.
+
+(** ---- become keeps the graph acyclic when the replacement is not reachable from the node ---- *)
+Lemma reach_trans es x y z : reach es x y -> reach es y z -> reach es x z.
+Proof. induction 1; [auto|]. intros H2. eapply reach_step; eauto. Qed.
+
+Lemma reach_edge es u v p : In (u, v, p) es -> reach es u v.
+Proof. intros H. eapply reach_step; [exact H | constructor]. Qed.
+
+(** redirecting the in-edges of [u] to [n] (and dropping edges) cannot close a cycle unless [u] was
+    reachable from [n] *)
+Theorem redirect_acyclic es es' n u :
+  (forall e, In e es' -> In e es \/ (exists p prm, e = (p, n, prm) /\ In (p, u, prm) es)) ->
+  acyclic es -> ~ reach es n u -> acyclic es'.
+Proof.
+  intros Hsub Hac Hguard.
+  assert (L : forall x y, reach es' x y ->
+                reach es x y \/ (exists p prm, reach es x p /\ In (p, u, prm) es /\ reach es' n y)).
+  { intros x y H. induction H as [x|a b y q Hin Hr IH]; [left; constructor|].
+    destruct (Hsub _ Hin) as [Hold|[p [prm [He Hpu]]]].
+    - destruct IH as [IH|[p [prm [H1 [H2 H3]]]]].
+      + left. eapply reach_step; eauto.
+      + right. exists p, prm. split; [eapply reach_step; eauto | auto].
+    - inversion He; subst. right. exists p, prm. split; [constructor | auto]. }
+  assert (Hn : forall y, reach es' n y -> reach es n y).
+  { intros y H. destruct (L _ _ H) as [H1|[p [prm [H1 [H2 _]]]]]; [exact H1|].
+    exfalso. apply Hguard. eapply reach_trans; [exact H1 | eapply reach_edge; eauto]. }
+  intros a b q Hin Hr.
+  destruct (Hsub _ Hin) as [Hold|[p [prm [He Hpu]]]].
+  - destruct (L _ _ Hr) as [H1|[p [prm [H1 [H2 H3]]]]].
+    + eapply Hac; eauto.
+    + apply Hguard. apply Hn in H3.
+      eapply reach_trans; [exact H3|]. eapply reach_step; [exact Hold|].
+      eapply reach_trans; [exact H1 | eapply reach_edge; eauto].
+  - inversion He; subst. apply Hn in Hr. apply Hguard.
+    eapply reach_trans; [exact Hr | eapply reach_edge; eauto].
+Qed.
+
+Lemma edge_eta (e : edge) : e = (e_src e, e_dst e, e_par e).
+Proof. destruct e as [[a b] c]. reflexivity. Qed.
+
+Theorem update_node_edges m n u m' :
+  update_node m n u = Ok m' ->
+  forall e, In e (s_edges m') ->
+    In e (s_edges m) \/ (exists p prm, e = (p, n, prm) /\ In (p, u, prm) (s_edges m)).
+Proof.
+  unfold update_node. intros H e He.
+  destruct (has n (s_nodes m)); cbn [negb] in H; [|discriminate].
+  destruct (has u (s_nodes m)); cbn [negb] in H; [|discriminate].
+  set (m0 := with_observed m (remove u (s_observed m))) in *.
+  set (m1 := remove_node (List.length (s_nodes m0)) m0 n) in *.
+  destruct (lookup u (s_nodes m1)) as [stu|]; [|discriminate].
+  set (m2 := with_nodes m1 (set n stu (s_nodes m1))) in *.
+  set (out_edges := filter (fun e => String.eqb n (e_src e)) (s_edges m0)) in *.
+  destruct (forallb (fun e => has (e_dst e) (s_nodes m2)) out_edges); cbn [negb] in H; [|discriminate].
+  set (es3 := fold_left (fun es e => add_edge (e_src e) (e_dst e) (e_par e) es) out_edges (s_edges m2)) in *.
+  set (m3 := with_edges m2 es3) in *.
+  set (in_u := filter (fun e => String.eqb u (e_dst e)) (s_edges m3)) in *.
+  set (es4 := fold_left (fun es e => add_edge (e_src e) n (e_par e) es) in_u (s_edges m3)) in *.
+  set (m4 := with_edges m3 es4) in *.
+  set (m5 := remove_node (List.length (s_nodes m4)) m4 u) in *.
+  assert (He5 : In e (s_edges m5)).
+  { inversion H; subst m'. destruct (lookup u (s_observed m)); exact He. }
+  apply remove_node_edges_incl in He5. simpl in He5.
+  (* edges of m3 are old edges *)
+  assert (H3 : forall x, In x es3 -> In x (s_edges m)).
+  { intros x Hx. unfold es3 in Hx. apply (fold_add_edges_In (fun y => y)) in Hx.
+    destruct Hx as [Hx|[y [Hy ->]]].
+    - simpl in Hx. apply remove_node_edges_incl in Hx. exact Hx.
+    - unfold out_edges in Hy. apply filter_In in Hy. apply Hy. }
+  unfold es4 in He5. apply (fold_add_edges_In (fun y => (e_src y, n, e_par y))) in He5.
+  destruct He5 as [Hx|[y [Hy ->]]].
+  - left. now apply H3.
+  - right. unfold in_u in Hy. apply filter_In in Hy. destruct Hy as [Hy Hd]. apply String.eqb_eq in Hd.
+    exists (e_src y), (e_par y). split; [reflexivity|].
+    apply H3 in Hy. rewrite (edge_eta y) in Hy. now rewrite <- Hd in Hy.
+Qed.
+
+(** NodeReference.become keeps the model acyclic whenever the replacement is neither the node
+    itself nor one of its descendants. *)
+Theorem update_node_acyclic m n u m' :
+  update_node m n u = Ok m' -> acyclic (s_edges m) -> ~ reach (s_edges m) n u -> acyclic (s_edges m').
+Proof.
+  intros H Hac Hg. eapply redirect_acyclic; [|exact Hac|exact Hg]. now apply update_node_edges.
+Qed.
